@@ -146,7 +146,11 @@ fn classify_point(path: &Path) -> String {
     let data = match std::fs::read(path) { Ok(d) => d, Err(_) => return "absent".into() };
     if data.is_empty() { return "empty".into() }
     let mut r = std::io::Cursor::new(&data);
-    if StoredPointHeader::read(&mut r).is_err() { return "other".into() }
+    // a header cut short by a kill between the pieces it is written in: the reader reports it as such
+    // (a fatal error here would stop every later run)
+    if let Err(e) = StoredPointHeader::read(&mut r) {
+        return if e.is_fatal() { "header-fatal".into() } else { "torn".into() }
+    }
     if r.position() as usize == data.len() { return "attempt".into() }
     if StoredManifest::read(&mut r).is_err() { return "other".into() }
     loop {
@@ -382,7 +386,8 @@ fn scenario(rep: &Arc<Mutex<Report>>, factory: &Arc<Factory>, sc: &str,
     });
     // 4. the same with kills at system-call granularity (strace fault injection): independent of where
     //    the source-level kill points were placed
-    if sc == "update" || args.thorough() {
+    // (fresh / attempt: point files are created and their headers written piece by piece: the `write` calls)
+    if sc == "update" || sc == "fresh" || sc == "attempt" || args.thorough() {
         syscall_pass(rep, sc, &root, &base, &tals, &killed_cmd, &reference, new_version, old_version,
                      allowed_point, allowed_status, had_stored, args);
     }
@@ -398,7 +403,9 @@ const SYSCALLS: &str = "rename,renameat,renameat2,unlink,unlinkat,rmdir,ftruncat
 fn syscall_pass(rep: &Arc<Mutex<Report>>, sc: &str, root: &Path, base: &Path, tals: &Path, killed_cmd: &[&str],
                 reference: &BTreeSet<String>, new_version: u64, old_version: u64,
                 allowed_point: &BTreeSet<String>, allowed_status: &BTreeSet<String>, had_stored: bool, args: &Args) {
-    let union = if args.thorough() { format!("{SYSCALLS},openat,creat,truncate") } else { SYSCALLS.to_string() };
+    let union = if args.thorough() { format!("{SYSCALLS},write,pwrite64,writev,openat,creat,truncate") }
+                else if sc == "update" { SYSCALLS.to_string() }
+                else { "write,pwrite64,writev".to_string() };
     let sets: Vec<String> = union.split(',').map(|x| x.to_string()).collect();
     // counting run (union): the global order of the calls
     let countc = root.join("caches").join("sys-count");
